@@ -98,7 +98,9 @@ def attr_value(env: Env, kind: str, rng):
 
         return mk_type(env, rng.choice(TYPE_VARIANTS))
     if kind == "AttrDtype":
-        return rng.choice([np.int32, np.float64, np.bool_])
+        from harness.props.c11 import elem_types
+
+        return elem_types(env)[rng.choice(sorted(elem_types(env)))]
     if kind == "AttrTensors":
         from harness.props.c11 import LAYOUTS, layout_array
 
@@ -172,7 +174,9 @@ def given_repr(env: Env, kind: str, v) -> str:
         spec = next((s for s in TYPE_VARIANTS if mk_type(env, s) == v), None)
         return "type:" + repr(describe_spec(np, onnx, spec)) if spec is not None else "type:?"
     if kind == "AttrDtype":
-        return "i:" + str(onnx.helper.np_dtype_to_tensor_dtype(np.dtype(v)))
+        from harness.props.c11 import elem_of
+
+        return "i:" + str(elem_of(env, v))
     if kind == "AttrTensors":
         return "tensors:" + repr([tensor_repr(a) for a in v])
     if kind == "AttrGraph":
@@ -208,7 +212,13 @@ def gen_sig(rng, idx: int, force=None):
         "vhook": rng.choice(["absent", "absent", "total", "partial", "junk", "illtyped", "empty"]),
         "level": rng.choice([0, 1, 2, 2, 3]),
     }
+    if rng.random() < 0.15:
+        sig["thook"] = "container"
     sig.update(force)
+    if sig["thook"] == "container":
+        sig["vhook"] = rng.choice(["container", "container", "container-bad", "absent"])
+    elif sig["vhook"].startswith("container"):
+        sig["vhook"] = "total"
     # one instantiation
     inst = {"present": {}, "nvar": 0, "out_nvar": None, "attrs": {}, "typed_inputs": rng.random() < 0.8,
             "const_inputs": rng.random() < 0.4}
@@ -257,6 +267,10 @@ def hook_dicts(env: Env, sig):
                 continue
             if m == "empty":
                 continue
+            if m == "container":  # declared element types are *more general* than the values' types
+                th[k] = (ts.Sequence(ts.Tensor(np.float32, (None,))) if i % 2 == 0
+                         else ts.Optional(ts.Tensor(np.float32, (None, "N"))))
+                continue
             th[k] = ts.Tensor(np.float32, None) if m == "nonconcrete" else ts.Tensor(np.float32, (i + 1,))
         if m == "junk":
             th["not_an_output"] = ts.Tensor(np.int64, ())
@@ -268,6 +282,19 @@ def hook_dicts(env: Env, sig):
             if m == "partial" and i % 2 == 0:
                 continue
             if m == "empty":
+                continue
+            if m.startswith("container"):
+                PV = env.vp.PropValue
+                if i % 2 == 0:
+                    elems = [PV(ts.Tensor(np.float32, (2,)), np.full((2,), 1.5, np.float32)),
+                             PV(ts.Tensor(np.float32, (3,)), np.full((3,), 2.5, np.float32))][: (i // 2) % 3]
+                    if m == "container-bad":
+                        elems = elems + [PV(ts.Tensor(np.int64, (2,)), np.ones((2,), np.int64))]
+                    vh[k] = elems
+                else:
+                    vh[k] = None if (i // 2) % 2 else PV(ts.Tensor(np.float32, (1, 2)), np.full((1, 2), 3.5, np.float32))
+                    if m == "container-bad":
+                        vh[k] = PV(ts.Tensor(np.int64, (1, 2)), np.ones((1, 2), np.int64))
                 continue
             if m == "illtyped" and i % 2 == 0:
                 vh[k] = np.ones((i + 1,), np.int64)  # wrong dtype for the declared float32
@@ -401,9 +428,24 @@ def classify_warnings(caught):
     return out
 
 
+def same_value(np, a, b) -> bool:
+    if isinstance(a, np.ndarray) and isinstance(b, np.ndarray):
+        return bool(np.array_equal(a, b))
+    if isinstance(a, list) and isinstance(b, list):
+        return len(a) == len(b) and all(x is y for x, y in zip(a, b))
+    return a is b
+
+
 def conforms(env: Env, typ, val) -> bool:
-    """independent conformance of a propagated value to a Tensor type (numpy only)"""
+    """independent conformance of a propagated value to its declared type (numpy only): a nested value
+    may be of any type *compatible with* the declared element type (more specific shapes included)"""
     np = env.np
+    ts = env.ts
+    is_pv = lambda x: hasattr(x, "type") and hasattr(x, "value")  # noqa: E731
+    if isinstance(typ, ts.Sequence):
+        return isinstance(val, list) and all(is_pv(e) and conforms(env, typ.elem_type, e.value) and conforms(env, e.type, e.value) for e in val)
+    if isinstance(typ, ts.Optional):
+        return val is None or (is_pv(val) and conforms(env, typ.elem_type, val.value))
     if not isinstance(val, np.ndarray) or not isinstance(typ, env.ts.Tensor):
         return False
     if np.dtype(typ.dtype) != val.dtype:
@@ -522,7 +564,7 @@ def _run_case(ck, env: Env, sig, rng, reqs, metas, stats):
             ck.failure("hooks:type-mismatch", f"output {k}: type {var.type} but the type hook says {want_t}", case)
         has_v = vh is not None and k in vh
         if has_v and want_t is not None and conforms(env, want_t, vh[k]):
-            ok = var._value is not None and env.np.array_equal(var._value.value, vh[k]) and var._value.type == want_t
+            ok = var._value is not None and same_value(env.np, var._value.value, vh[k]) and var._value.type == want_t
             if not ok:
                 ck.failure("hooks:value-missing", f"output {k}: value hook gave a conforming value but the Var has {var._value}", case)
         elif var._value is not None:
@@ -611,7 +653,7 @@ def _run_case(ck, env: Env, sig, rng, reqs, metas, stats):
         v = None
         if var._value is not None:
             v = next((vk for vk, v_ in tok_v.items() if v_ is (vh or {}).get(k) and v_ is tok_v[vk]
-                      and env.np.array_equal(v_, var._value.value)), "?")
+                      and same_value(env.np, v_, var._value.value)), "?")
         real_outs.append({"key": k, "type": t, "value": v})
     metas.append(("infer", sig, {"outs": real_outs, "warns": sorted((a, b or "") for a, b in wl)}))
 
@@ -658,21 +700,27 @@ def find_nodes(graph, domain):
     return out
 
 
-def compose_case(ck, env: Env, sig, position: str, rng, opset_reqs, v2=None, deep_only=None):
+def compose_case(ck, env: Env, sig, position: str, rng, opset_reqs, v2=None, deep_only=None, untyped=None):
     try:
-        _compose_case(ck, env, sig, position, rng, opset_reqs, v2, deep_only)
+        _compose_case(ck, env, sig, position, rng, opset_reqs, v2, deep_only, untyped)
     except AttrRejected:
         return
     except Exception as e:  # noqa: BLE001
         ck.broken("correspondence", f"composition case ({position}) not observable", f"{type(e).__name__}: {e}")
 
 
-def _compose_case(ck, env: Env, sig, position: str, rng, opset_reqs, v2=None, deep_only=None):
+FEED_POSITIONS = ("feed-inline", "feed-std-inline", "inline-feed", "feed-if-inline")
+
+
+def _compose_case(ck, env: Env, sig, position: str, rng, opset_reqs, v2=None, deep_only=None, untyped=None):
     """Place one application of a (typed) custom operator at `position` of a surrounding program,
     build, and inspect the ModelProto independently."""
     np, ts, op = env.np, env.ts, env.op
     sig = dict(sig)
-    sig["thook"], sig["vhook"], sig["level"] = "total", "absent", 0
+    if untyped is None:
+        untyped = position in FEED_POSITIONS and rng.random() < 0.5
+    # `untyped`: a hook-less operator - its outputs are untyped Vars, which must still compose
+    sig["thook"], sig["vhook"], sig["level"] = ("absent" if untyped else "total"), "absent", 0
     sig["inst"] = dict(sig["inst"], typed_inputs=True)
     th, vh = hook_dicts(env, sig)
     cls = make_class(env, sig, th, vh)
@@ -680,12 +728,12 @@ def _compose_case(ck, env: Env, sig, position: str, rng, opset_reqs, v2=None, de
         v2 = sig["version"] + (rng.choice([-1, 1, 2]) if sig["version"] > 1 else 1)
     if deep_only is None:
         deep_only = position != "top" and rng.random() < 0.4
-    case = {"kind": "compose", "position": position, "sig": strip(sig), "v2": v2, "deep_only": deep_only}
+    case = {"kind": "compose", "position": position, "sig": strip(sig), "v2": v2, "deep_only": deep_only, "untyped": untyped}
     slots = [s for s in expected_slots(sig) if s]
     args = {s: env.argument(ts.Tensor(np.float32, (2,))) for s in slots}
     cond = env.argument(ts.Tensor(np.bool_, ()))
     # a second class of the same domain at another version: the import must be the maximum
-    sig2 = dict(sig, name=sig["name"] + "b", version=v2,
+    sig2 = dict(sig, name=sig["name"] + "b", version=v2, thook="total",
                 inputs=[("i0", "single")], outputs=[("o0", "single")], attrs=[],
                 inst={"present": {}, "nvar": 0, "out_nvar": None, "attrs": {}, "typed_inputs": True})
     th2, _ = hook_dicts(env, sig2)
@@ -727,6 +775,24 @@ def _compose_case(ck, env: Env, sig, position: str, rng, opset_reqs, v2=None, de
                     else_branch=lambda: [x0],
                 )
                 outs["y"] = r
+            elif position in FEED_POSITIONS:
+                # a small model to inline: Relu on a vector of any length
+                a0 = env.argument(ts.Tensor(np.float32, (None,)))
+                m0 = env.build({"a0": a0}, {"b0": op.relu(a0)})
+                thru = lambda v: list(env.inline(m0)(v).values())[0]  # noqa: E731
+                if position == "feed-inline":        # custom output -> inlined model
+                    outs["y"] = thru(apply())
+                elif position == "feed-std-inline":  # custom output -> standard operator -> inlined model
+                    outs["y"] = thru(op.neg(apply()))
+                elif position == "inline-feed":      # inlined results -> custom inputs; its output -> inlined model
+                    args = {s: thru(v) for s, v in args.items()}
+                    outs["y"] = thru(apply())
+                else:                                # inside an If body, through an inlined model
+                    inputs["cond"] = cond
+                    x1 = env.argument(ts.Tensor(np.float32, (None,)))
+                    inputs["x1"] = x1
+                    (r,) = op.if_(cond, then_branch=lambda: [thru(apply())], else_branch=lambda: [x1])
+                    outs["y"] = r
             elif position == "loop-if":  # If inside a Loop body
                 m = op.const(np.array([2], np.int64))
                 inputs["cond"] = cond
@@ -767,7 +833,15 @@ def _compose_case(ck, env: Env, sig, position: str, rng, opset_reqs, v2=None, de
         return
     p = nodes[0]
     want = expected_slots(sig)
-    if list(p.input) != want:
+    if position == "inline-feed":
+        # the inputs are produced by inlined models (generated names): compare the pattern of slots
+        groups = {}
+        got_pat = [None if not x else groups.setdefault(x, len(groups)) for x in p.input]
+        groups = {}
+        want_pat = [None if not x else groups.setdefault(x, len(groups)) for x in want]
+        if got_pat != want_pat:
+            ck.failure(f"build:{position}:verbatim", f"inputs {list(p.input)}, expected the slot pattern of {want}", case)
+    elif list(p.input) != want:
         ck.failure(f"build:{position}:verbatim", f"inputs {list(p.input)}, expected {want}", case)
     avals = built["avals"]
     want_attrs = [(a["name"], given_repr(env, a["kind"], avals[a["name"]])) for a in sig["attrs"] if avals[a["name"]] is not None]
@@ -783,7 +857,7 @@ def _compose_case(ck, env: Env, sig, position: str, rng, opset_reqs, v2=None, de
         ck.failure(f"import:{position}:duplicate", "several imports of the custom domain", case)
     if real_req is not None:
         opset_reqs.append((real_req, imports, position))
-    ck.count(("compose", position, repr(sig["inputs"]), repr(sig["inst"])))
+    ck.count(("compose", position, untyped, repr(sig["inputs"]), repr(sig["inst"])))
 
 
 # ----------------------------------------------------------------------------- execution
@@ -1123,7 +1197,7 @@ def run(ck: core.Check):
     opset_reqs = []
     for i in range(ck.pick(40, 300)):
         sig = gen_sig(rng, 30_000 + i)
-        for position in ("top", "if", "loop", "inline", "if2", "loop-if"):
+        for position in ("top", "if", "loop", "inline", "if2", "loop-if") + FEED_POSITIONS:
             compose_case(ck, env, sig, position, rng, opset_reqs)
     for req, imports, position in opset_reqs:
         reqs.append({"kind": "opsets", "reqs": [[d, v] for d, v in req]})
@@ -1217,7 +1291,7 @@ def replay(ck: core.Check, doc) -> bool:
     if c["kind"] == "node":
         run_case(ck, env, fix(c["sig"]), rng, [], [], stats)
     elif c["kind"] == "compose":
-        compose_case(ck, env, fix(c["sig"]), c["position"], rng, [], c.get("v2"), c.get("deep_only"))
+        compose_case(ck, env, fix(c["sig"]), c["position"], rng, [], c.get("v2"), c.get("deep_only"), c.get("untyped"))
     elif c["kind"] == "exec":
         exec_case(ck, env, c["position"], c["k"], stats)
     elif c["kind"] == "reinfer":
